@@ -47,3 +47,23 @@ theorem validateOrFail_spec (env : Env) (s : Schema) (v : PyVal) :
     simp [h, this, hl]
 
 end D42
+
+namespace D42
+
+/-- **the rendered message names the path** (C03, last clause): whatever `formatX` renders names exactly
+    `shownPath e` — the error's own path, extended by the missing index / key — which extends the error's path
+    (`shownPath_extends`) and, by `errors_located`, leads to the reported sub-value -/
+theorem format_shown (e : Err) (m : Msg) (h : formatX e = .ok m) : m.shown = shownPath e := by
+  cases e <;> simp only [formatX] at h
+  all_goals first
+    | (cases h; rfl)
+    | (rename_i p a n
+       cases hl : pyLenX a with
+       | error x => simp [hl, bind, Except.bind] at h
+       | ok k => simp [hl, bind, Except.bind, pure, Except.pure] at h; subst h; rfl)
+
+theorem format_names_path (env : Env) (s : Schema) (v : PyVal) (p : Path) (e : Err) (m : Msg)
+    (_he : e ∈ validateP env false s v p) (h : formatX e = .ok m) : e.path <+: m.shown := by
+  rw [format_shown e m h]; exact shownPath_extends e
+
+end D42
